@@ -89,6 +89,12 @@ func (g *Gen) Run() (err error) {
 	for _, fv := range g.fn.FreeVars {
 		bind(fv.Name(), fv.Type(), fv)
 	}
+	if recv := g.fn.Signature.Recv(); recv != nil && len(g.fn.Params) > 0 {
+		if _, isPtr := recv.Type().Underlying().(*types.Pointer); isPtr && g.vals[g.fn.Params[0]].Addr == nil && (g.fc == nil || g.fc.Opts["nilrecv"] != "true") {
+			// implicit precondition of every pointer-receiver method under contract; call sites prove it
+			g.assume("(not (= " + g.vals[g.fn.Params[0]].S + " 0))")
+		}
+	}
 	env := g.fnEnv(g.cur, nil)
 	if g.fc != nil {
 		for _, r := range g.fc.Requires {
@@ -847,6 +853,7 @@ func (g *Gen) loopFrame(li *loopInfo, heap, oldT, newT string, entry *State, bas
 		if v.Addr != nil {
 			return
 		}
+		v = g.ghostOwner(v, owner)
 		exc = append(exc, fmt.Sprintf("(not (= r %s))", v.S))
 	}
 	bound := "true"
@@ -976,8 +983,8 @@ func (g *Gen) locOf(env *Env, le Expr) (heaps []string, idx string, whole bool, 
 	switch x := le.(type) {
 	case *EField:
 		if gd, ok := g.E.contracts.Ghosts[x.Name]; ok && gd.Kind == "field" {
-			h, _, _, _ := g.ghostHeap(gd)
-			return []string{h}, g.eval(env, x.X).S, false, nil
+			h, owner, _, _ := g.ghostHeap(gd)
+			return []string{h}, g.ghostOwner(g.eval(env, x.X), owner).S, false, nil
 		}
 		base := g.eval(env, x.X)
 		var pkg *types.Package
@@ -1008,8 +1015,8 @@ func (g *Gen) locOf(env *Env, le Expr) (heaps []string, idx string, whole bool, 
 		return []string{g.fieldHeap(st, last)}, cur.S, false, nil
 	case *ECall:
 		if gd, ok := g.E.contracts.Ghosts[x.Fun]; ok && gd.Kind == "field" && len(x.Args) == 1 {
-			h, _, _, _ := g.ghostHeap(gd)
-			return []string{h}, g.eval(env, x.Args[0]).S, false, nil
+			h, owner, _, _ := g.ghostHeap(gd)
+			return []string{h}, g.ghostOwner(g.eval(env, x.Args[0]), owner).S, false, nil
 		}
 		switch x.Fun {
 		case "contents":
